@@ -63,8 +63,8 @@ STALE = ['swap_triples', 'rotate', 'reverse', 'shuffle', 'sort_by_role', 'move_t
 
 def plan(rng, idx, tier):
     spec = rng.weighted([(gmodels.DEFAULT, 3), (gmodels.AMR, 4), (gmodels.custom(idx), 2)])
-    ccfg = gcontent.ContentCfg(max_nodes=rng.pick([1, 2, 3, 4, 5, 6]), p_none_target=0.02, p_inverted_attr=0.03,
-                               max_attrs=3)
+    ccfg = gcontent.ContentCfg(max_nodes=rng.weighted([(1, 2), (2, 3), (3, 3), (4, 3), (5, 3), (6, 3), (10, 1), (14, 1)]),
+                               p_none_target=0.02, p_inverted_attr=0.03, max_attrs=rng.weighted([(3, 6), (6, 1)]))
     start = lc.plan_start(rng.sub('start'), spec, ccfg=ccfg,
                           lcfg=gcontent.LayoutCfg(p_align=0.0))
     ops = []
